@@ -687,17 +687,16 @@ Proof.
          | try rewrite E in A3; cbv iota beta in A3; destruct A3 as [_ (f0 & Hf0 & Hk & Hq)];
            intros f Hf; rewrite Hf in Hf0; injection Hf0 as <-; unfold justified; rewrite Hk; left; exact Hq
          | simp_proj; exact I ] end].
-  (* CONNACK accepted *)
-  all: try solve [match goal with E : k_ppc (k _) = PConnack ?sp ?rc, E2 : negb (?rc =? 0) = false,
-                       Ec : t_connfut (t _) = Some ?n |- InvHist (set_ppc (fut_complete ?x ?n ?v) PAll) =>
-         apply negb_false_iff, N.eqb_eq in E2;
-         simp_in Ec; try rewrite Ec in D; destruct D as (f0 & Hf0 & Hk);
-         unfold InvRx in R; rewrite E in R; cbn [rx_pc] in R; destruct R as [rest Hrx]; rewrite E2 in Hrx;
-         apply (hist_complete s x _ n v INV);
-         [ evt | intros ?; reflexivity | repeat split; simp_proj; reflexivity
-         | simp_proj; intros ? ? X0; exact X0 | simp_proj; reflexivity
-         | intros f Hf; rewrite Hf in Hf0; injection Hf0 as <-; eapply connack_justified; eassumption
-         | simp_proj; destruct (k_api (k s)) as [[? ?]|]; [reflexivity|exact I] ] end].
+  (* CONNACK accepted, listing and re-send over (or failed): the connect future completes *)
+  all: try solve [match goal with E : k_ppc (k _) = PConnDone ?sp _, Ec : t_connfut (t _) = Some ?n |- InvHist ?tm =>
+         match tm with context [fut_complete ?x n ?v] =>
+           simp_in Ec; try rewrite Ec in D; destruct D as (f0 & Hf0 & Hk);
+           unfold InvRx in R; rewrite E in R; cbn [rx_pc] in R; destruct R as [rest Hrx];
+           apply (hist_complete s x tm n v INV);
+           [ evt | intros ?; reflexivity | repeat split; simp_proj; reflexivity
+           | simp_proj; intros ? ? X0; exact X0 | simp_proj; reflexivity
+           | intros f Hf; rewrite Hf in Hf0; injection Hf0 as <-; eapply connack_justified; eassumption
+           | simp_proj; destruct (k_api (k s)) as [[? ?]|]; [reflexivity|exact I] ] end end].
   (* an acknowledgement completes the future stored under its id *)
   all: try solve [match goal with E : k_ppc (k _) = PAckFut ?p, E1 : get_id ?p = Some ?id, E2 : store_get_f _ ?id = Some ?c
                        |- InvHist (set_ppc ?inner (PRecv false)) =>
